@@ -1,0 +1,96 @@
+//go:build verif
+
+/*
+Copyright 2021 The Kubernetes Authors.
+
+Licensed under the Apache License, Version 2.0 (the "License");
+you may not use this file except in compliance with the License.
+You may obtain a copy of the License at
+
+    http://www.apache.org/licenses/LICENSE-2.0
+
+Unless required by applicable law or agreed to in writing, software
+distributed under the License is distributed on an "AS IS" BASIS,
+WITHOUT WARRANTIES OR CONDITIONS OF ANY KIND, either express or implied.
+See the License for the specific language governing permissions and
+limitations under the License.
+*/
+
+package test
+
+import (
+	"fmt"
+	"strings"
+
+	corev1 "k8s.io/api/core/v1"
+	"k8s.io/pod-security-admission/api"
+	"k8s.io/pod-security-admission/policy"
+)
+
+// VerifFixture is one in-memory fixture pod with the file name TestFixtures gives it.
+type VerifFixture struct {
+	Level api.Level
+	Minor int
+	Pass  bool
+	Name  string // file name without extension, e.g. "hostports1", "base_linux"
+	Pod   *corev1.Pod
+}
+
+// VerifNewestMinorVersionToTest is the newest minor version fixtures are generated for.
+func VerifNewestMinorVersionToTest() int { return newestMinorVersionToTest }
+
+// VerifFixtures enumerates the in-memory fixtures exactly as TestFixtures does
+// (same levels, versions, checks, names), so the verification harness can compare
+// them with the serialized testdata and evaluate them. Compiled only with the
+// "verif" build tag.
+func VerifFixtures() ([]VerifFixture, error) {
+	var out []VerifFixture
+	defaultChecks := policy.DefaultChecks()
+	add := func(level api.Level, minor int, pass bool, name string, pod *corev1.Pod) {
+		pod = pod.DeepCopy()
+		pod.Name = name
+		out = append(out, VerifFixture{Level: level, Minor: minor, Pass: pass, Name: name, Pod: pod})
+	}
+	for _, level := range []api.Level{api.LevelBaseline, api.LevelRestricted} {
+		for version := 0; version <= newestMinorVersionToTest; version++ {
+			v := api.MajorMinorVersion(1, version)
+			osNeutralPod, err := GetMinimalValidPod(level, v)
+			if err != nil {
+				return nil, err
+			}
+			add(level, version, true, "base", osNeutralPod)
+			if level == api.LevelRestricted && version >= podOSBasedRestrictionEnabledVersion {
+				linuxPod, err := GetMinimalValidLinuxPod(level, v)
+				if err != nil {
+					return nil, err
+				}
+				add(level, version, true, "base_linux", linuxPod)
+				windowsPod, err := GetMinimalValidWindowsPod(level, v)
+				if err != nil {
+					return nil, err
+				}
+				add(level, version, true, "base_windows", windowsPod)
+			}
+			checkIDs, err := checksForLevelAndVersion(defaultChecks, level, v)
+			if err != nil {
+				return nil, err
+			}
+			if len(checkIDs) == 0 {
+				return nil, fmt.Errorf("no checks registered for %s/1.%d", level, version)
+			}
+			for _, checkID := range checkIDs {
+				checkData, err := getFixtures(fixtureKey{level: level, version: v, check: checkID})
+				if err != nil {
+					return nil, err
+				}
+				for i, pod := range checkData.pass {
+					add(level, version, true, fmt.Sprintf("%s%d", strings.ToLower(string(checkID)), i), pod)
+				}
+				for i, pod := range checkData.fail {
+					add(level, version, false, fmt.Sprintf("%s%d", strings.ToLower(string(checkID)), i), pod)
+				}
+			}
+		}
+	}
+	return out, nil
+}
